@@ -2,7 +2,7 @@
 # usage: [ROUND=3] tools/round2.sh <PROP> ...  — adopt later-round seeded changes (round 2: A->C, B->D from /tmp/wt2;
 # round 3: A->E, B->F from /tmp/wt3) and run the mutation self-test on them
 R=${ROUND:-2}
-if [ "$R" = 10 ]; then ROOT=/tmp/wt10; N1=S; N2=T; elif [ "$R" = 9 ]; then ROOT=/tmp/wt9; N1=Q; N2=R; elif [ "$R" = 8 ]; then ROOT=/tmp/wt8; N1=O; N2=P; elif [ "$R" = 7 ]; then ROOT=/tmp/wt7; N1=M; N2=N; elif [ "$R" = 5 ]; then ROOT=/tmp/wt5; N1=I; N2=J; elif [ "$R" = 6 ]; then ROOT=/tmp/wt6; N1=K; N2=L; elif [ "$R" = 4 ]; then ROOT=/tmp/wt4; N1=G; N2=H; elif [ "$R" = 3 ]; then ROOT=/tmp/wt3; N1=E; N2=F; else ROOT=/tmp/wt2; N1=C; N2=D; fi
+if [ "$R" = 11 ]; then ROOT=/tmp/wt11; N1=U; N2=V; elif [ "$R" = 10 ]; then ROOT=/tmp/wt10; N1=S; N2=T; elif [ "$R" = 9 ]; then ROOT=/tmp/wt9; N1=Q; N2=R; elif [ "$R" = 8 ]; then ROOT=/tmp/wt8; N1=O; N2=P; elif [ "$R" = 7 ]; then ROOT=/tmp/wt7; N1=M; N2=N; elif [ "$R" = 5 ]; then ROOT=/tmp/wt5; N1=I; N2=J; elif [ "$R" = 6 ]; then ROOT=/tmp/wt6; N1=K; N2=L; elif [ "$R" = 4 ]; then ROOT=/tmp/wt4; N1=G; N2=H; elif [ "$R" = 3 ]; then ROOT=/tmp/wt3; N1=E; N2=F; else ROOT=/tmp/wt2; N1=C; N2=D; fi
 for p in "$@"; do
   for pair in "A $N1" "B $N2"; do set -- $pair
     [ -f $ROOT/$p/_out/$1/patch.diff ] || continue
